@@ -498,6 +498,204 @@ _reg(RepDef("TorchTensor/noncontig", "TorchTensor/noncontiguous", "TorchTensor/c
 _reg(RepDef("ir.tensor/torch", "ir.tensor(torch)", "TorchTensor/contig", _a_torch, _b_irtensor_torch, cls="TorchTensor"))
 
 
+# ---- views: same logical array, unusual memory layout --------------------------------------------------
+def _garbage_like(env, n: int, dtype) -> np.ndarray:
+    """n elements of deterministic non-zero junk with the given numpy dtype."""
+    isz = np.dtype(dtype).itemsize
+    raw = bytes(((7 * i + 0xA5) & 0x7F) | 0x01 for i in range(n * isz))
+    if np.dtype(dtype) == np.bool_:
+        return np.ones(n, dtype=np.bool_)
+    return np.frombuffer(raw, dtype=dtype).copy()
+
+
+def _flat_typed(env) -> np.ndarray:
+    return O.typed_array(env.patterns, env.spec, (env.size,))
+
+
+def _b_tensor_offset(env):
+    k = 1 + env.rng.randrange(0, 5)
+    flat = _flat_typed(env)
+    big = np.concatenate([_garbage_like(env, k, flat.dtype), flat, _garbage_like(env, 3, flat.dtype)])
+    arr = big[k:k + env.size].reshape(env.shape)
+    assert env.size == 0 or arr.base is not None
+    return lambda: ir.Tensor(arr)
+
+
+def _a_rank1(env):
+    return None if (len(env.shape) >= 1 and env.size > 1) else "n/a:needs-rank>=1-and-size>1"
+
+
+def _b_tensor_negstride(env):
+    typed = O.typed_array(env.patterns, env.spec, env.shape)
+    idx = tuple(slice(None, None, -1) for _ in env.shape)
+    arr = np.ascontiguousarray(typed[idx])[idx]          # same logical content, all strides negative
+    return lambda: ir.Tensor(arr)
+
+
+def _b_tensor_strided(env):
+    typed = O.typed_array(env.patterns, env.spec, env.shape)
+    big = _garbage_like(env, env.size * 2, typed.dtype).reshape(env.shape[:-1] + (env.shape[-1] * 2,))
+    big[..., ::2] = typed
+    arr = big[..., ::2]
+    return lambda: ir.Tensor(arr)
+
+
+def _b_tensor_readonly(env):
+    arr = O.typed_array(env.patterns, env.spec, env.shape).copy()
+    arr.flags.writeable = False
+    return lambda: ir.Tensor(arr)
+
+
+def _a_constant(env):
+    if len(env.shape) < 1 or env.size < 2:
+        return "n/a:needs-rank>=1-and-size>1"
+    return None if len(set(env.patterns)) == 1 else "n/a:broadcast-needs-constant-data"
+
+
+def _b_tensor_broadcast(env):
+    one = O.typed_array(env.patterns[:1], env.spec, ())
+    arr = np.broadcast_to(one, env.shape)                # every stride is zero
+    return lambda: ir.Tensor(arr)
+
+
+_reg(RepDef("Tensor/offset-slice", "Tensor/view-with-offset", "Tensor/ml", _ok, _b_tensor_offset, cls="Tensor"))
+_reg(RepDef("Tensor/neg-stride", "Tensor/negative-strides", "Tensor/noncontig", _a_rank1, _b_tensor_negstride, cls="Tensor"))
+_reg(RepDef("Tensor/strided-slice", "Tensor/strided-slice", "Tensor/noncontig", _a_rank1, _b_tensor_strided, cls="Tensor"))
+_reg(RepDef("Tensor/readonly", "Tensor/read-only-array", "Tensor/ml", _ok, _b_tensor_readonly, cls="Tensor"))
+_reg(RepDef("Tensor/broadcast", "Tensor/zero-strides", "Tensor/ml", _a_constant, _b_tensor_broadcast, cls="Tensor"))
+
+
+def _packed_u8(env) -> np.ndarray:
+    return np.frombuffer(env.exp_bytes, dtype=np.uint8)
+
+
+def _b_packed_offset(env):
+    k = 1 + env.rng.randrange(0, 5)
+    big = np.concatenate([_garbage_like(env, k, np.uint8), _packed_u8(env), _garbage_like(env, 2, np.uint8)])
+    arr = big[k:k + len(env.exp_bytes)]
+    return lambda: ir.PackedTensor(arr, env.dtype, shape=ir.Shape(env.shape))
+
+
+def _a_packed_multi(env):
+    return _subbyte(env) or (None if len(env.exp_bytes) > 1 else "n/a:needs->1-packed-bytes")
+
+
+def _b_packed_strided(env):
+    n = len(env.exp_bytes)
+    big = _garbage_like(env, 2 * n, np.uint8)
+    big[::2] = _packed_u8(env)
+    arr = big[::2]
+    return lambda: ir.PackedTensor(arr, env.dtype, shape=ir.Shape(env.shape))
+
+
+def _b_packed_negstride(env):
+    arr = np.ascontiguousarray(_packed_u8(env)[::-1])[::-1]
+    return lambda: ir.PackedTensor(arr, env.dtype, shape=ir.Shape(env.shape))
+
+
+def _b_packed_readonly(env):
+    arr = _packed_u8(env)                                  # frombuffer over bytes: read-only
+    assert not arr.flags.writeable
+    return lambda: ir.PackedTensor(arr, env.dtype, shape=ir.Shape(env.shape))
+
+
+def _b_packed_torch_offset(env):
+    t = torch()
+    k = 1 + env.rng.randrange(0, 5)
+    w = t.frombuffer(bytearray(bytes(_garbage_like(env, k, np.uint8)) + env.exp_bytes + b"\x55"), dtype=t.uint8)
+    x = w[k:k + len(env.exp_bytes)]
+    return lambda: ir.PackedTensor(x, env.dtype, shape=ir.Shape(env.shape))
+
+
+_reg(RepDef("PackedTensor/offset-slice", "PackedTensor/view-with-offset", "PackedTensor/ndarray", _subbyte, _b_packed_offset, cls="PackedTensor"))
+_reg(RepDef("PackedTensor/strided-slice", "PackedTensor/strided-slice", "PackedTensor/ndarray", _a_packed_multi, _b_packed_strided, cls="PackedTensor"))
+_reg(RepDef("PackedTensor/neg-stride", "PackedTensor/negative-strides", "PackedTensor/ndarray", _a_packed_multi, _b_packed_negstride, cls="PackedTensor"))
+_reg(RepDef("PackedTensor/readonly", "PackedTensor/read-only-array", "PackedTensor/ndarray", _subbyte, _b_packed_readonly, cls="PackedTensor"))
+_reg(RepDef("PackedTensor/torch-offset", "PackedTensor/torch-uint8-view-with-offset", "PackedTensor/torch", _subbyte, _b_packed_torch_offset, cls="PackedTensor"))
+
+
+def _torch_flat_with_prefix(env, k: int, tail: int):
+    """1-D torch tensor: k junk elements, the data, `tail` junk elements (one storage)."""
+    t = torch()
+    dt = getattr(t, env.spec.torch)
+    data, isz = _elem_bytes(env)
+    junk = bytes(_garbage_like(env, (k + tail) * isz, np.uint8))
+    if env.spec.kind == "bool":
+        junk = bytes(b & 1 for b in junk)
+    if env.spec.bits < 8:
+        junk = bytes(b & ((1 << env.spec.bits) - 1) for b in junk)
+    buf = bytearray(junk[:k * isz] + data + junk[k * isz:])
+    return t.frombuffer(buf, dtype=dt)
+
+
+def _b_torch_offset(env):
+    k = 1 + env.rng.randrange(0, 5)
+    w = _torch_flat_with_prefix(env, k, 2)
+    x = w.narrow(0, k, env.size).reshape(env.shape)      # C-contiguous view, storage_offset() == k
+    assert env.size == 0 or (x.storage_offset() == k and x.is_contiguous())
+    return lambda: tensor_adapters.TorchTensor(x)
+
+
+def _a_torch_chunk(env):
+    r = _a_torch(env)
+    if r is None and (len(env.shape) < 1 or env.size == 0):
+        return "n/a:needs-rank>=1-and-size>0"
+    return r
+
+
+def _b_torch_chunk(env):
+    """Second result of torch.chunk on a fused tensor whose second half is D."""
+    t = torch()
+    w = _torch_flat_with_prefix(env, env.size, 0).reshape((2 * env.shape[0],) + env.shape[1:])
+    x = t.chunk(w, 2, dim=0)[1]
+    assert tuple(x.shape) == env.shape and x.storage_offset() == env.size
+    return lambda: ir.tensor(x)
+
+
+def _a_torch_strided(env):
+    r = _a_torch(env) or _a_rank1(env)
+    if r is None and env.spec.bits < 8:
+        return "skip:torch-cannot-copy-shell-dtypes"
+    return r
+
+
+def _b_torch_strided(env):
+    t = torch()
+    dt = getattr(t, env.spec.torch)
+    data, isz = _elem_bytes(env)
+    eb = np.frombuffer(data, dtype=np.uint8).reshape(env.shape + (isz,))
+    big = _garbage_like(env, env.size * 2 * isz, np.uint8).reshape(env.shape[:-1] + (env.shape[-1] * 2, isz))
+    if env.spec.kind == "bool":
+        big &= 1
+    big[..., ::2, :] = eb
+    w = t.frombuffer(bytearray(big.tobytes()), dtype=dt).reshape(env.shape[:-1] + (env.shape[-1] * 2,))
+    x = w[..., ::2]
+    assert tuple(x.shape) == env.shape
+    return lambda: tensor_adapters.TorchTensor(x)
+
+
+def _a_torch_expand(env):
+    r = _a_torch(env) or _a_constant(env)
+    if r is None and env.spec.bits < 8:
+        return "skip:torch-cannot-copy-shell-dtypes"
+    return r
+
+
+def _b_torch_expand(env):
+    t = torch()
+    dt = getattr(t, env.spec.torch)
+    data, isz = _elem_bytes(env)
+    one = t.frombuffer(bytearray(data[:isz]), dtype=dt).reshape(())
+    x = one.expand(env.shape)                             # zero strides
+    return lambda: tensor_adapters.TorchTensor(x)
+
+
+_reg(RepDef("TorchTensor/storage-offset", "TorchTensor/view-with-storage-offset", "TorchTensor/contig", _a_torch, _b_torch_offset, cls="TorchTensor"))
+_reg(RepDef("TorchTensor/chunk", "TorchTensor/view-with-storage-offset", "TorchTensor/storage-offset", _a_torch_chunk, _b_torch_chunk, cls="TorchTensor"))
+_reg(RepDef("TorchTensor/strided-slice", "TorchTensor/strided-slice", "TorchTensor/noncontig", _a_torch_strided, _b_torch_strided, cls="TorchTensor"))
+_reg(RepDef("TorchTensor/expand", "TorchTensor/zero-strides", "TorchTensor/contig", _a_torch_expand, _b_torch_expand, cls="TorchTensor"))
+
+
 # ---- lazy ---------------------------------------------------------------------------------------------
 def _mk_lazy(base: str, cache: bool):
     def applicable(env):
@@ -510,7 +708,7 @@ def _mk_lazy(base: str, cache: bool):
 
 
 for _base in ("Tensor/ml", "PackedTensor/ndarray", "TensorProtoTensor/raw_data", "TensorProtoTensor/typed",
-              "ExternalTensor/odd+tail", "TorchTensor/contig"):
+              "ExternalTensor/odd+tail", "TorchTensor/contig", "TorchTensor/storage-offset"):
     for _cache in (False, True):
         _a, _b = _mk_lazy(_base, _cache)
         _reg(RepDef(f"LazyTensor[cache={_cache}]/{_base}", f"LazyTensor[cache={_cache}] over {REPS[_base].sig}",
